@@ -139,6 +139,69 @@ pub fn run_c19(cfg: &Cfg) -> (Part, Value, bool) {
                 let ms = chk_ctor(k, "from_hex", l);
                 record(&mut p, "ctor:from_hex", k.name(), "-", vec![], &|| format!("ctor {} from_hex {}", k.name(), l), ms);
             }
+            // TryFrom from other implementations / integers / slices beyond the capacity
+            for &t in &targets {
+                for sk in ALL_KINDS {
+                    if *sk == k || sk.cap().map_or(false, |sc| t > sc) {
+                        continue;
+                    }
+                    for m in lat_small(t) {
+                        let src = Vo::new(*sk, &m, Prov::Fresh);
+                        for by_value in [false, true] {
+                            if !mccore::conv::has_conv(*sk, k, by_value) {
+                                continue;
+                            }
+                            p.transitions += 1;
+                            if t > c {
+                                p.count("constructor_beyond_capacity", 1);
+                            }
+                            let r = guard(|| mccore::conv::convert(&src.v, k, by_value));
+                            let ms = match (t <= c, r) {
+                                (true, Ok(Ok(y))) if y.len() == t && y.bits() == m => vec![],
+                                (false, Ok(Err(e))) if e == "NotEnoughCapacity" => vec![],
+                                (fits, other) => vec![Mis {
+                                    what: if fits { "fits_but_failed".into() } else { "overflow_not_signalled".into() },
+                                    expected: if fits { format!("Ok(len={})", t) } else { "Err(NotEnoughCapacity)".into() },
+                                    observed: format!("{:?}", other.map(|r| r.map(|y| format!("len={} capacity={}", y.len(), y.capacity())))),
+                                }],
+                            };
+                            record(&mut p, "ctor:try_from_vector", k.name(), sk.name(), vec![if t > c { "beyond_capacity".into() } else { "fits".into() }], &|| format!("convert {} {} {}", src.show(), k.name(), if by_value { "val" } else { "ref" }), ms);
+                        }
+                    }
+                }
+            }
+            for ty in ALL_NAT {
+                for n in enumr::ul(*ty) {
+                    p.transitions += 1;
+                    let sig = Bits::from_u128(128, n.val()).sig();
+                    let r = guard(|| mccore::conv::from_nat(k, n, false));
+                    let ok = match (&r, sig <= c) {
+                        (Ok(Ok(y)), true) => y.len() <= c && y.bits().low_u128() == n.val(),
+                        (Ok(Err(e)), false) => e == "NotEnoughCapacity",
+                        _ => false,
+                    };
+                    if sig > c {
+                        p.count("constructor_beyond_capacity", 1);
+                    }
+                    if !ok {
+                        record(&mut p, "ctor:try_from_int", k.name(), ty.name(), vec![], &|| format!("from_nat {} {} val", k.name(), n.show()), vec![Mis { what: "overflow_not_signalled".into(), expected: if sig <= c { "Ok".into() } else { "Err(NotEnoughCapacity)".into() }, observed: format!("{:?}", r.map(|r| r.map(|y| format!("len={}", y.len())))) }]);
+                    }
+                }
+                for cnt in [c / ty.bits(), c / ty.bits() + 1] {
+                    p.transitions += 1;
+                    let el: Vec<u128> = (0..cnt).map(|i| if i % 2 == 0 { 0 } else { ty.max() }).collect();
+                    let r = guard(|| mccore::conv::from_slice(k, *ty, &el));
+                    let fits = cnt * ty.bits() <= c;
+                    let ok = match (&r, fits) {
+                        (Ok(Ok(y)), true) => y.len() == cnt * ty.bits(),
+                        (Ok(Err(e)), false) => e == "NotEnoughCapacity",
+                        _ => false,
+                    };
+                    if !ok {
+                        record(&mut p, "ctor:try_from_slice", k.name(), ty.name(), vec![], &|| format!("from_slice {} {} {}", k.name(), ty.name(), el.iter().map(|e| e.to_string()).collect::<Vec<_>>().join(",")), vec![Mis { what: "overflow_not_signalled".into(), expected: if fits { "Ok".into() } else { "Err(NotEnoughCapacity)".into() }, observed: format!("{:?}", r.map(|r| r.map(|y| format!("len={}", y.len())))) }]);
+                    }
+                }
+            }
             // mutators
             for &n in &lens {
                 let mut vals = lat_small(n);
